@@ -18,8 +18,9 @@ import (
 // source address + port identify the datagram).  Every datagram becomes one case: its bytes
 // and the events that carry its source address.
 type sockResult struct {
-	in Input
-	ob Obs
+	in    Input
+	ob    Obs
+	crash string
 }
 
 var sockSvcs = []string{"dns", "tftp", "counterstrike", "memcached-udp"}
@@ -51,7 +52,7 @@ func burstDatagram(r *hx.Rand, svc string, i int) []byte {
 }
 
 func sockRound(r *hx.Rand, scratch string, n int, must []Input) []sockResult {
-	ports := lab.FreePorts(1 + len(sockSvcs))
+	ports := lab.FreePorts(3 + len(sockSvcs))
 	var sb strings.Builder
 	sb.WriteString("[listener]\ntype=\"socket\"\n\n[channel.cap]\ntype=\"verif-cap\"\nname=\"cap\"\n\n[[filter]]\nchannel=[\"cap\"]\n\n")
 	sb.WriteString("[service.ready]\ntype=\"verif-stub\"\nname=\"ready\"\nreadsize=64\n\n")
@@ -61,6 +62,12 @@ func sockRound(r *hx.Rand, scratch string, n int, must []Input) []sockResult {
 		fmt.Fprintf(&sb, "[service.u%d]\ntype=%q\n\n[[port]]\nport=\"udp/127.0.0.1:%d\"\nservices=[\"u%d\"]\n\n", i, regName(s), ports[1+i], i)
 		port[s] = ports[1+i]
 	}
+	// shared tcp ports: a service with a detector (http) listed first, so that the server peeks
+	// and hands the chosen service the peek wrapper
+	sharedPort := map[string]int{"telnet": ports[1+len(sockSvcs)], "redis": ports[2+len(sockSvcs)]}
+	sb.WriteString("[service.hfirst]\ntype=\"http\"\n\n[service.tn]\ntype=\"telnet\"\n\n[service.rd]\ntype=\"redis\"\n\n")
+	fmt.Fprintf(&sb, "[[port]]\nport=\"tcp/127.0.0.1:%d\"\nservices=[\"hfirst\",\"tn\"]\n\n", sharedPort["telnet"])
+	fmt.Fprintf(&sb, "[[port]]\nport=\"tcp/127.0.0.1:%d\"\nservices=[\"hfirst\",\"rd\"]\n\n", sharedPort["redis"])
 	l, err := lab.StartSocket(sb.String(), scratch, fmt.Sprintf("127.0.0.1:%d", ports[0]))
 	if err != nil {
 		hx.Fatal("socket lab: %v", err)
@@ -126,6 +133,108 @@ func sockRound(r *hx.Rand, scratch string, n int, must []Input) []sockResult {
 			}
 		}
 		out = append(out, sockResult{in: s.in, ob: ob})
+	}
+	out = append(out, sharedPortSessions(r, l, sharedPort, must)...)
+	return out
+}
+
+// a long pipelined telnet session (well over the terminal's 256-byte input buffer)
+func longTelnet(r *hx.Rand) stream {
+	s := stream{svc: "telnet", units: []string{"root\r\n", "hunter2\r\n"}}
+	n := r.Range(12, 24)
+	for i := 0; i < n; i++ {
+		s.units = append(s.units, fmt.Sprintf("echo command-%02d %s\r\n", i, strings.Repeat("x", r.Range(0, 40))))
+	}
+	return s
+}
+
+// Shared-port delivery: the connection reaches the service through server.findService (peek of
+// up to 1024 bytes, http's CanHandle first) over real loopback TCP, one Write per segment with
+// a pause between segments; first segments above and below the service's read size.
+func sharedPortSessions(r *hx.Rand, l *lab.Lab, port map[string]int, must []Input) []sockResult {
+	var ins []Input
+	for _, m := range must {
+		if m.Mode == "shared-port" {
+			ins = append(ins, m)
+		}
+	}
+	if len(ins) == 0 {
+		for k := 0; k < 2; k++ {
+			t := longTelnet(r)
+			total := len(t.bytes())
+			ins = append(ins, t.input("shared-port", nil, nil), // one write
+				t.input("shared-port", []int{r.Range(257, minInt(total-1, 1000))}, nil), // long first segment
+				t.input("shared-port", []int{r.Range(1, 200)}, nil))                    // short first segment
+		}
+		ls := lockstep(longTelnet(r), r, false)
+		ls.Mode = "shared-port"
+		ins = append(ins, ls)
+		rs := stream{svc: "redis"}
+		for i := 0; i < 30; i++ {
+			rs.units = append(rs.units, resp("SET", fmt.Sprintf("key-%d", i), strings.Repeat("v", r.Range(0, 60))))
+		}
+		ins = append(ins, rs.input("shared-port", nil, nil), rs.input("shared-port", []int{r.Range(300, 900)}, nil))
+	}
+	var out []sockResult
+	for _, in := range ins {
+		sockSeq++
+		src := &net.TCPAddr{IP: net.IPv4(127, 1, byte(sockSeq>>8), byte(sockSeq))}
+		d := net.Dialer{LocalAddr: src, Timeout: 2 * time.Second}
+		c, err := d.Dial("tcp4", fmt.Sprintf("127.0.0.1:%d", port[in.Svc]))
+		if err != nil {
+			hx.Fatal("dial shared port: %v", err)
+		}
+		la := c.LocalAddr().(*net.TCPAddr)
+		key := fmt.Sprintf("%s:%d", la.IP.String(), la.Port)
+		// replies are read and thrown away
+		fin := make(chan struct{})
+		go func() {
+			buf := make([]byte, 65536)
+			for {
+				if _, err := c.Read(buf); err != nil {
+					close(fin)
+					return
+				}
+			}
+		}()
+		for i, seg := range segments(in) {
+			if i > 0 {
+				time.Sleep(4 * time.Millisecond)
+			}
+			c.SetWriteDeadline(time.Now().Add(2 * time.Second))
+			if _, err := c.Write(seg); err != nil {
+				break
+			}
+		}
+		time.Sleep(4 * time.Millisecond)
+		c.(*net.TCPConn).CloseWrite()
+		crash := ""
+		select {
+		case <-fin:
+		case <-time.After(5 * time.Second):
+			crash = "server did not close the connection 5 s after the client's FIN"
+		}
+		c.Close()
+		// the bus delivers asynchronously: wait for 30 ms without a new event of this connection
+		mine := func() []Ev {
+			var evs []Ev
+			for _, e := range l.EventsOf("cap") {
+				if e.Get("source-ip")+":"+anyField(e, "source-port") == key && e.Get("category") == in.Svc {
+					evs = append(evs, toEv(e))
+				}
+			}
+			return evs
+		}
+		last, stable := len(mine()), 0
+		for i := 0; i < 400 && stable < 6; i++ {
+			time.Sleep(5 * time.Millisecond)
+			if n := len(mine()); n == last {
+				stable++
+			} else {
+				last, stable = n, 0
+			}
+		}
+		out = append(out, sockResult{in: in, ob: Obs{Events: mine()}, crash: crash})
 	}
 	return out
 }
